@@ -843,8 +843,16 @@ class Interp:
                 else:
                     out_[self.ev(k, env, depth)] = self.ev(v_, env, depth)
             return out_
-        if isinstance(e, (ast.Tuple, ast.List)) and not any(isinstance(x, ast.Starred) for x in e.elts):
-            vals = [self.ev(x, env, depth) for x in e.elts]
+        if isinstance(e, (ast.Tuple, ast.List)):
+            vals = []
+            for x in e.elts:
+                if isinstance(x, ast.Starred):
+                    part = self.ev(x.value, env, depth)
+                    if isinstance(part, (Obj, Stream, Bound)) or part is UNKNOWN:
+                        raise _Unknown("unpacking of a witness object")
+                    vals.extend(part)
+                else:
+                    vals.append(self.ev(x, env, depth))
             return tuple(vals) if isinstance(e, ast.Tuple) else vals
         raise _Unknown(f"expression not foldable: {ast.unparse(e)[:80]}")
 
